@@ -193,6 +193,16 @@ class Family:
                     db = tf.TinyFlux(path, encoding=enc, **dial)
                     for j, pt in enumerate(sample):
                         db.insert(self.mkpoint(tf, pt), compact_key_prefixes=(j % 2 == 0))
+                    if i % 2 == 1:
+                        # the rows also survive being rewritten (remove / update stream every kept row through
+                        # deserialize -> serialize, twice here) in the same session
+                        for tagk in ("__kill1", "__kill2"):
+                            db.insert(tf.Point(time=V.dt_of(T0), tags={tagk: "1"}))
+                        db.remove(tf.TagQuery()["__kill1"] == "1")
+                        mid = [V.show_point(p) for p in db.all(sorted=False)][:-1]
+                        db.remove(tf.TagQuery()["__kill2"] == "1")
+                        if mid != [V.show_point(self.mkpoint(tf, pt)) for pt in sample]:
+                            raise AssertionError("after a rewrite in the same session: " + str(mid)[:300])
                     db.close()
                     db2 = tf.TinyFlux(path, encoding=enc, access_mode="r", **dial)
                     got = [V.show_point(p) for p in db2.all(sorted=False)]
